@@ -237,6 +237,12 @@ func runOpWorld(rc *corepkg, prop string) {
 		if !ok || prop != "c09" || resp.GetRegionId() == 0 || resp.GetHeader().GetError() != nil {
 			return
 		}
+		// no command may remove or demote the very peer it is addressed to as the leader (the step's precondition does
+		// not hold, so the operator had to be cancelled instead)
+		if cp := resp.GetChangePeer(); cp != nil && cp.GetPeer().GetId() == resp.GetTargetPeer().GetId() && resp.GetTargetPeer().GetId() != 0 &&
+			(cp.GetChangeType().String() == "RemoveNode" || cp.GetChangeType().String() == "AddLearnerNode") {
+			rc.Violate("c09.command", "command-changes-the-leader-it-is-sent-to", "PD sent %s of peer %d of region %d to that very peer as the region's leader", cp.GetChangeType(), cp.GetPeer().GetId(), resp.GetRegionId())
+		}
 		// the command must carry the epoch and leader of some heartbeat PD has received for the region
 		okEpoch := false
 		for _, hb := range ow.sentHB[resp.GetRegionId()] {
@@ -413,6 +419,22 @@ func runOpWorld(rc *corepkg, prop string) {
 			} else {
 				intents[r.ID] = prevIntent
 				rc.Extra["admin_refused"]++
+			}
+			// an operator that cannot make progress (its stores ignore the commands), times out after its wait time, and
+			// whose region then disappears (merged into its neighbour behind PD's back)
+			if foreignEvents && err == nil && rc.Extra["stuck_region_scenarios"] == 0 && s.Choose(30, "adm.vanish") == 0 && !r.Merged {
+				rc.Extra["stuck_region_scenarios"]++
+				ow.deafUntil[r.ID] = time.Now().Add(30 * time.Minute)
+				simrt.Sleep(time.Duration(11+s.Choose(3, "adm.vanish.wait")) * time.Minute)
+				if n := ow.M.RightNeighbour(r); n != nil && !r.Merged && !r.InJoint() && !n.InJoint() && simtikv.SameStores(r, n) {
+					ow.M.Merge(r, n)
+					ow.noteForeign(r.ID)
+					ow.noteForeign(n.ID)
+					rc.Extra["foreign_merge_of_stuck_region"]++
+					ow.sendRegionHB(n)
+				}
+				delete(ow.deafUntil, r.ID)
+				simrt.Sleep(time.Duration(2+s.Choose(10, "adm.vanish.after")) * time.Second)
 			}
 			// foreign events injected at any point of the execution
 			if foreignEvents && s.Choose(3, "adm.foreign") == 0 {
